@@ -153,6 +153,22 @@ def run_attr(c):
             o.magnetization = (1e5, 2e5, 3e5)
             o.polarization = v
             expJ = v
+        elif form in ("set_mag_warning_as_error", "set_pol_warning_as_error"):
+            # a warning escalated to an error must not leave the two attributes out of sync
+            import warnings
+
+            o = C(polarization=(0.5, 0.5, 0.5), **par)
+            small = v / max(np.linalg.norm(v), 1e-300) * 100.0  # |M| = 100 A/m < 2000 triggers the low-magnetization warning
+            with warnings.catch_warnings():
+                warnings.simplefilter("error")
+                try:
+                    if form.startswith("set_mag"):
+                        o.magnetization = small
+                    else:
+                        o.polarization = small * mu0
+                except Warning:
+                    pass
+            expJ = None
         elif form == "M_J_M":
             o = C(magnetization=(1e5, 2e5, 3e5), **par)
             o.polarization = (0.5, 0.5, 0.5)
@@ -164,11 +180,13 @@ def run_attr(c):
     problems = []
     sc = max(np.linalg.norm(J), np.linalg.norm(mu0 * M), 1e-300)
     rel = np.linalg.norm(J - mu0 * M) / sc
-    if rel > 1e-15:
+    if rel > 1e-9:
+        problems.append(("polarization-and-magnetization-out-of-sync", f"|pol - mu_0*mag|/|pol| = {rel:.3g} (pol={J.tolist()}, mag={M.tolist()})"))
+    elif rel > 1e-15:
         problems.append(("polarization!=mu_0*magnetization", f"|pol - mu_0*mag|/|pol| = {rel:.3g} (pol={J.tolist()}, mag={M.tolist()})"))
     if expJ is not None and not np.array_equal(J, expJ):
         problems.append(("polarization-readback", f"{J.tolist()} != {expJ.tolist()}"))
-    if cls != "Triangle" and np.linalg.norm(v) > 0:
+    if cls != "Triangle" and np.linalg.norm(v) > 0 and not form.endswith("as_error"):
         p_in = {"Cuboid": (0.01, 0.02, 0.03), "Cylinder": (0.01, 0.02, 0.03), "CylinderSegment": (0.5, 0.3, 0.1), "Sphere": (0.01, 0.02, 0.03),
                 "Tetrahedron": (0.05, 0.02, 0.0), "TriangularMesh": (0.05, 0.02, 0.0)}[cls]
         gJ, gM = o.getJ(p_in), o.getM(p_in)
@@ -202,7 +220,7 @@ def enumerate_cases(tier):
                             continue
                         cases.append({"part": "field", "cls": cls, "regime": ri, "pol": pi, "pose": po, "in_out": io})
     for cls in MAGNETS + ["Triangle"]:
-        for form in ("ctor_pol", "ctor_mag", "set_pol", "set_mag", "J_M_J", "M_J_M"):
+        for form in ("ctor_pol", "ctor_mag", "set_pol", "set_mag", "J_M_J", "M_J_M", "set_mag_warning_as_error", "set_pol_warning_as_error"):
             for val in ((0.2, -0.3, 0.9), (0, 0, 0), (1e-12, 0, 2e-12), (1e12, -3e12, 2e12), (0, 0, 1.0)):
                 cases.append({"part": "attr", "cls": cls, "form": form, "value": list(val)})
     return cases
